@@ -163,6 +163,19 @@ def valget_cases(rng, tier):
             data = bytes(4) + body
             impl = C.guarded(K.impl_valget, data)
             cases.append(Case('valget-decode-published-keys', f'valget {sk} {C.hexs(data)}', impl.rstrip(), {'message': 'UbxCfgValGet', 'pattern': pi, 'payload_hex': C.hexs(data)}, kind='valget/published'))
+    # keys that share group and item with a documented-signed key but have another size: unsigned (signedness belongs to the key id)
+    for k0 in K.DOCUMENTED_SIGNED + consts[:6]:
+        body = b''
+        for size in (1, 2, 3, 4, 5):
+            key = (k0 & ~(7 << 28)) | (size << 28)
+            if key in K.DOCUMENTED_SIGNED:
+                continue
+            w = {1: 1, 2: 1, 3: 2, 4: 4, 5: 8}[size]
+            body += key.to_bytes(4, 'little') + (b'\x01' if size == 1 else bytes(w - 1) + b'\x80')
+            body += (key ^ 0x00010000).to_bytes(4, 'little') + (b'\x00' if size == 1 else b'\xff' * w)
+        data = bytes(4) + body
+        impl = C.guarded(K.impl_valget, data)
+        cases.append(Case('valget-decode-key-neighbours', f'valget {sk} {C.hexs(data)}', impl.rstrip(), {'message': 'UbxCfgValGet', 'near_key': hex(k0), 'payload_hex': C.hexs(data)}, kind='valget/neighbours'))
     for n in [0, 1, 2, 3, 10, 63, 64, 64] + [rng.randrange(1, 65) for _ in range(6 if tier == 'quick' else 300)]:
         body = b''
         for j in range(n):
